@@ -1,2 +1,202 @@
-From Astisub Require Import Kit.Base.
-Theorem C04_placeholder : True. Proof. exact I. Qed.
+(* C04 -- SSA/ASS codec fidelity (model: Model/Ssa.v, tied to ssa.go by the correspondence suites of harness/ssa_model.go).
+
+   Proved here, for ALL values (no size bound), about the executable model of ReadFromSSAWithOptions / WriteToSSA:
+   * field codecs: booleans (0 false, any other integer true -- what the writer emits is read back), colours (the
+     writer's &H%08x, upper-case hexadecimal and decimal), integers, numbers (thousandths), the script-info timer
+     (decimal comma), times to the centisecond in HH:MM:SS.cc and H:MM:SS.cc;
+   * event text: every list of representable lines and runs, written with any mixture of \N and \n inside one event,
+     is split back into exactly those lines and runs (consecutive override blocks, empty runs, leading empty lines,
+     commas, a line ending in a backslash included);
+   * rows are decoded column by column for EVERY Format line: any order, any subset, repeated or unknown names, the
+     TertiaryColour alias (style rows: C04_style_row_read; event rows with the surplus commas folded into the last
+     column: C04_event_row_read); rows written by the writer are read back under every column list;
+   * documents: for every representable document (doc_repr: decidable side conditions listed in notes/C04.md) the
+     bytes written are read back as the canonical form of the document -- script info and all style attributes
+     unchanged ("true booleans stay true"), items with times truncated to the centisecond, absent margins/layer as 0,
+     the speaker name the writer chose on every line, lines and runs unchanged -- and writing what was read gives
+     the same bytes again (C04_rewrite);
+   * reading: for every order of the script-info keys, every spelling of the section names, every pair of Format
+     lines and every admissible cell encoding, a rendered document is read as the script info, styles and items it
+     denotes (C04_read_rendered; sections in the order script info, styles, events);
+   * junk lines, unknown sections and non-Dialogue events are ignored; LF / CR LF / CR and the byte-order mark; reader
+     and writer never panic; style names with a leading '*' resolve; the bytes do not depend on the map order.
+   Faithful domain of the model: floats that are k/1000 with |k| < 10^15 (other ParseFloat inputs are answered
+   Err EOther and compared by result class only), ints in Go's int range, colour components < 256. *)
+From Coq Require Import List ZArith NArith Bool.
+From Astisub Require Import Kit.Base Kit.Str Kit.Scan Model.Dur Model.Ssa.
+From Coq Require Import Permutation.
+From Astisub Require Import Proofs.EolProofs Proofs.SsaFields Proofs.SsaText Proofs.SsaRows Proofs.SsaDoc Proofs.SsaInfo Proofs.SsaInfoOrder Proofs.SsaIgnore Proofs.SsaOrder Proofs.SsaRepr Proofs.SsaRead.
+Import ListNotations.
+
+(* ---- field codecs ---- *)
+Theorem C04_bool_written : forall b, parse_bool (format_bool b) = b.
+Proof. exact parse_bool_format. Qed.
+Print Assumptions C04_bool_written.
+Theorem C04_bool_any_nonzero : forall v, int_ok v -> parse_bool (itoa_z v) = negb (v =? 0)%Z.
+Proof. exact parse_bool_int. Qed.
+Print Assumptions C04_bool_any_nonzero.
+Theorem C04_int : forall v, int_ok v -> atoi (itoa_z v) = Some v.
+Proof. exact atoi_itoa_z_all. Qed.
+Print Assumptions C04_int.
+Theorem C04_colour_written : forall c, color_ok c -> parse_color (format_color c) = Ok (Some c).
+Proof. exact parse_color_format. Qed.
+Print Assumptions C04_colour_written.
+Theorem C04_colour_hex_upper : forall c, color_ok c -> parse_color (amp_h ++ map hex_upper (color_string c)) = Ok (Some c).
+Proof. exact parse_color_hex_upper. Qed.
+Print Assumptions C04_colour_hex_upper.
+Theorem C04_colour_decimal : forall c, color_ok c -> parse_color (itoa_z (color_value c)) = Ok (Some c).
+Proof. exact parse_color_decimal. Qed.
+Print Assumptions C04_colour_decimal.
+Theorem C04_number : forall z, float_ok z -> parse_float3 (format_float3 z) = Some z.
+Proof. exact parse_float3_format. Qed.
+Print Assumptions C04_number.
+Theorem C04_timer : forall z, float_ok z -> parse_float3 (comma_to_dot (dot_to_comma (format_float_short z))) = Some z.
+Proof. exact timer_roundtrip. Qed.
+Print Assumptions C04_timer.
+Theorem C04_time_written : forall t, (0 <= t <= max_int64)%Z -> parse_time (format_ssa t) = Some (t - t mod 10000000)%Z.
+Proof. exact parse_time_format. Qed.
+Print Assumptions C04_time_written.
+Theorem C04_time_one_digit_hour : forall h m s c, (0 <= h <= 9)%Z -> (0 <= m < 60)%Z -> (0 <= s < 60)%Z -> (0 <= c < 100)%Z ->
+  parse_time (itoa_z h ++ [58%N] ++ two m ++ [58%N] ++ two s ++ [46%N] ++ two c) =
+  Some (h * hour_ns + m * minute_ns + s * second_ns + c * 10000000)%Z.
+Proof. exact parse_time_h_mm_ss_cc. Qed.
+Print Assumptions C04_time_one_digit_hour.
+
+(* ---- event text ---- *)
+Theorem C04_runs : forall rs, runs_ok rs -> line_runs (concat (map run_string rs)) = rs.
+Proof. exact line_runs_string. Qed.
+Print Assumptions C04_runs.
+Theorem C04_text_lines : forall name ls seps, ls <> [] -> Forall line_ok ls ->
+  text_lines name (join_seps seps (map line_string ls)) = map (fun l => mkAline name (al_runs l)) ls.
+Proof. exact text_lines_rendered. Qed.
+Print Assumptions C04_text_lines.
+
+(* ---- rows, for every Format line ---- *)
+Theorem C04_style_row_read : forall cols cells src,
+  cells <> [] -> Forall (fun c => ~ In 44%N c) cells -> Forall2 (col_ok src) cols cells ->
+  exists r, style_from_string (join [44%N] cells) cols = Ok r /\
+            (forall a, in_cols a cols -> sget a r = sget a src) /\
+            (forall a, ~ in_cols a cols -> sget a r = sget a astyle0).
+Proof. exact style_row_read. Qed.
+Print Assumptions C04_style_row_read.
+Theorem C04_style_row_roundtrip : forall s attrs, style_ok s -> ~ In AName attrs ->
+  exists r, style_from_string (style_string s (AName :: attrs)) (map sattr_name (AName :: attrs)) = Ok r /\
+            sget AName r = sget AName s /\
+            (forall a, In a attrs -> sget a r = sget a s) /\
+            (forall a, a <> AName -> ~ In a attrs -> sget a r = sget a astyle0).
+Proof. exact style_row_roundtrip. Qed.
+Print Assumptions C04_style_row_roundtrip.
+Theorem C04_style_row_roundtrip_full : forall s attrs, style_ok s -> ~ In AName attrs ->
+  (forall a, a <> AName -> sets a s -> In a attrs) ->
+  style_from_string (style_string s (AName :: attrs)) (map sattr_name (AName :: attrs)) = Ok s.
+Proof. exact style_row_roundtrip_full. Qed.
+Print Assumptions C04_style_row_roundtrip_full.
+Theorem C04_event_row_read : forall header cols init last src,
+  Forall (fun c => ~ In 44%N c) init -> Forall2 (ecol_ok src) cols (init ++ [last]) ->
+  exists r, event_from_string header (join [44%N] (init ++ [last])) cols = Ok r /\ av_category r = header /\
+            (forall a, in_ecols a cols -> eget a r = eget a src) /\
+            (forall a, ~ in_ecols a cols -> eget a r = eget a (aevent0 header)).
+Proof. exact event_row_read. Qed.
+Print Assumptions C04_event_row_read.
+Theorem C04_event_row_roundtrip : forall header e init lastc, event_ok e -> ~ In EText init ->
+  let fmt := init ++ [lastc] in
+  exists r, event_from_string header (event_string e fmt) (map eattr_name fmt) = Ok r /\ av_category r = header /\
+            (forall a, In a fmt -> eget a r = ewritten a e) /\
+            (forall a, ~ In a fmt -> eget a r = eget a (aevent0 header)).
+Proof. exact event_row_roundtrip. Qed.
+Print Assumptions C04_event_row_roundtrip.
+
+(* ---- documents ---- *)
+Theorem C04_write_read : forall d, doc_repr d ->
+  exists data, write_ssa d (style_keys d) = Ok data /\ read_ssa data = Ok (canon_doc d).
+Proof. exact write_read. Qed.
+Print Assumptions C04_write_read.
+Theorem C04_rewrite : forall d, doc_repr d ->
+  exists data d', write_ssa d (style_keys d) = Ok data /\ read_ssa data = Ok d' /\ write_ssa d' (style_keys d') = Ok data.
+Proof. exact rewrite_same. Qed.
+Print Assumptions C04_rewrite.
+
+(* the same for every order in which the runtime may range over the styles map *)
+Theorem C04_write_read_any_order : forall d order, doc_repr d -> Permutation order (style_keys d) ->
+  exists data, write_ssa d order = Ok data /\ read_ssa data = Ok (canon_doc d).
+Proof. exact write_read_any_order. Qed.
+Print Assumptions C04_write_read_any_order.
+Theorem C04_rewrite_any_order : forall d order order', doc_repr d -> Permutation order (style_keys d) ->
+  exists data d', write_ssa d order = Ok data /\ read_ssa data = Ok d' /\
+                  (Permutation order' (style_keys d') -> write_ssa d' order' = Ok data).
+Proof. exact rewrite_same_any_order. Qed.
+Print Assumptions C04_rewrite_any_order.
+Theorem C04_write_order_independent : forall d order order', Permutation order order' -> write_ssa d order = write_ssa d order'.
+Proof. exact write_order_independent. Qed.
+Print Assumptions C04_write_order_independent.
+(* the side condition is decidable, and a document with script info, comments, two styles over all kinds of attributes,
+   an event with an empty first line, consecutive override blocks, commas and a trailing backslash satisfies it *)
+Theorem C04_repr_decidable : forall d, doc_reprb d = true -> doc_repr d.
+Proof. exact doc_reprb_ok. Qed.
+Print Assumptions C04_repr_decidable.
+Example C04_example : doc_repr ex_doc.
+Proof. exact ex_doc_repr. Qed.
+
+(* ---- reading rendered documents ---- *)
+(* every order (and repetition) of the script info keys, every spelling of the section names, every pair of Format lines (columns in any order, any subset, unknown names,
+   any spacing around the commas), every admissible encoding of every cell: the reader returns the script info, the
+   styles and, for every Dialogue row, the item its event denotes (text splitting: C04_text_lines, C04_runs; style
+   look-up: C04_star_style).  Blank / junk lines, unknown sections, other event kinds, line endings and the byte-order
+   mark compose with this statement through the theorems below. *)
+Theorem C04_read_rendered : forall hi b keys styles he fe erows scols ecols e,
+  section_hdr true hi SInfo -> info_ok b -> (forall f, In f keys) ->
+  match styles with
+  | Some (hs, fs, srows) => section_hdr false hs SStyles /\ format_value fs scols /\ scols <> [] /\
+                            Forall (fun p : list str * astyle => style_row scols (fst p) (snd p)) srows
+  | None => True
+  end ->
+  section_hdr false he SEvents -> format_value fe ecols -> ecols <> [] ->
+  Forall (fun p : (list str * str) * aevent => event_row ecols (fst (fst p)) (snd (fst p)) (snd p)) erows ->
+  let sts := match styles with Some (_, _, srows) => map snd srows | None => [] end in
+  read_ssa_lines (rendered_lines hi b keys styles he fe erows) e =
+  if e then Err EIO
+  else Ok (mkAdoc (Some b) (styles_map sts) (map (fun ev => event_item ev (styles_map sts)) (map snd erows))).
+Proof. exact read_rendered. Qed.
+Print Assumptions C04_read_rendered.
+
+(* ---- what the reader ignores ---- *)
+Theorem C04_ignores_unintelligible_lines : forall l1 j l2 e, l1 <> [] -> junk j ->
+  read_ssa_lines (l1 ++ j :: l2) e = read_ssa_lines (l1 ++ l2) e.
+Proof. exact read_ignores_junk. Qed.
+Print Assumptions C04_ignores_unintelligible_lines.
+Theorem C04_ignores_unknown_sections : forall l1 u body l2 e, l1 <> [] -> unknown_hdr u -> Forall not_hdr body ->
+  (l2 = [] \/ exists h r, l2 = h :: r /\ is_hdr h) ->
+  read_ssa_lines (l1 ++ u :: body ++ l2) e = read_ssa_lines (l1 ++ l2) e.
+Proof. exact read_ignores_unknown_section. Qed.
+Print Assumptions C04_ignores_unknown_sections.
+Theorem C04_ignores_other_events : forall l1 row l2 e ev, l1 <> [] -> is_dialogue ev = false ->
+  (forall s, ssa_run rstate0 true l1 = Ok s ->
+             ssa_step s false row = Ok (mkRstate (rs_sect s) (rs_fmt s) (rs_info s) (rs_styles s) (rs_events s ++ [ev]))) ->
+  read_ssa_lines (l1 ++ row :: l2) e = read_ssa_lines (l1 ++ l2) e.
+Proof. exact read_ignores_other_events. Qed.
+Print Assumptions C04_ignores_other_events.
+(* line endings and byte-order mark *)
+Theorem C04_eol : forall e ls, eol_ok e -> Forall brkfree ls -> read_ssa (render_eol e ls) = read_ssa_lines ls false.
+Proof. exact read_eol. Qed.
+Print Assumptions C04_eol.
+Theorem C04_bom : forall l ls e, l <> [] -> trim_space l = l -> prefix bom3 l = None ->
+  read_ssa_lines ((bom3 ++ l) :: ls) e = read_ssa_lines (l :: ls) e.
+Proof. exact read_bom. Qed.
+Print Assumptions C04_bom.
+
+(* ---- totality ---- *)
+Theorem C04_reader_total : forall ls e p, read_ssa_lines ls e <> Panic p.
+Proof. exact read_no_panic. Qed.
+Print Assumptions C04_reader_total.
+Theorem C04_writer_total : forall d order p, write_ssa d order <> Panic p.
+Proof. exact write_no_panic. Qed.
+Print Assumptions C04_writer_total.
+
+(* ---- style references ---- *)
+Theorem C04_star_style : forall e styles n, av_style e = star ++ n -> n <> [] ->
+  sm_mem (star ++ n) styles = false -> sm_mem n styles = true -> ai_style (event_item e styles) = Some n.
+Proof. exact star_style_resolves. Qed.
+Print Assumptions C04_star_style.
+Theorem C04_star_default : forall e, exists e', event_cell (eattr_name EStyle) n_star_default e = Ok e' /\ av_style e' = n_default.
+Proof. exact star_default_cell. Qed.
+Print Assumptions C04_star_default.
